@@ -30,7 +30,7 @@ class Model(object):
         if cb is None:
             self.t.pop(name, None)
         else:
-            keep = [e for e in self.t.get(name, []) if e['cb'] is not cb]
+            keep = [e for e in self.t.get(name, []) if e['cb'] != cb]
             if keep:
                 self.t[name] = keep
             else:
@@ -61,9 +61,16 @@ def scenario(em, ops, log, depth_limit=2):
     def f(*a, **k):
         log.append(('f', a, tuple(sorted(k.items()))))
 
-    def g(*a, **k):
-        log.append(('g', a, tuple(sorted(k.items()))))
-    cbs = {'f': f, 'g': g}
+    class Handler(object):
+        # g is a bound method: every `handler.g` is a new object that is equal to, but not the same object as, the one subscribed
+        def g(self, *a, **k):
+            log.append(('g', a, tuple(sorted(k.items()))))
+    handler = Handler()
+
+    class Fresh(dict):
+        def __getitem__(self, key):
+            return handler.g if key == 'g' else f
+    cbs = Fresh()
 
     def make_h(action):
         def h(*a, **k):
@@ -75,7 +82,7 @@ def scenario(em, ops, log, depth_limit=2):
                 if action[0] == 'on':
                     em.on(action[1], f)
                 elif action[0] == 'off':
-                    em.off(action[1], g)
+                    em.off(action[1], handler.g)
                 elif action[0] == 'offall':
                     em.off(action[1])
                 elif action[0] == 'emit':
